@@ -71,7 +71,7 @@ theorem loadFile_boundary (cfg : Nat) (now : Int) (buf0 : Bytes) (pre : List Rec
     intro d buf _
     exact loadLoop_end now _ r' d buf hi' hs'
   rw [specK_congr now _ Kend hK pre _ buf0 hwb hb]
-  exact specK_values now pre _ dc buf0 hw (Rd.open_inv _ _) rfl
+  exact specK_values now Kend Stop.fileEnd (fun _ _ => rfl) (fun _ _ => rfl) pre _ dc buf0 hw (Rd.open_inv _ _) rfl
 
 /-- Cut inside the 12-byte header (1–11 bytes left): start-up error. -/
 theorem loadFile_header_cut (cfg : Nat) (now : Int) (buf0 f : Bytes) (dat : Option Bytes) (h0 : 0 < f.length) (h12 : f.length < 12) :
@@ -85,26 +85,21 @@ theorem loadFile_empty (cfg : Nat) (now : Int) (buf0 : Bytes) (dat : Option Byte
   unfold loadFile
   simp [readHeader_empty]
 
-/-- What a torn record becomes when it is replayed: its `res` bytes, completed with bytes `res..63` of the buffer the reader
-used before (the previous record of this or of the previous file, or zeros). -/
-def padded (x : Rec) (res : Nat) (old : Bytes) : Rec := ⟨x.buf.take res ++ old.drop res, none⟩
-
-/-- Cut `res` bytes into record `x` (0 < res < 64): EITHER the load is the record loop over the complete records followed by
-a start-up error, OR it is the record loop over the complete records followed by the replay of the padded record. There is
-no third outcome — in particular never "the complete records, cleanly". -/
+/-- Cut `res` bytes into record `x` (0 < res < 64): the load is the record loop over the complete records `pre`, ending EITHER
+in a start-up error ("Lock Len error": the torn record straddles a bufio refill) OR exactly like a clean end of the file (only
+the reused buffer differs). The torn record is never handed to the engine. -/
 theorem loadFile_torn (cfg : Nat) (now : Int) (buf0 : Bytes) (pre : List Rec) (x : Rec) (res : Nat) (dat : Option Bytes)
     (hw : ∀ y ∈ pre, WFBuf y.buf) (hx : WFBuf x.buf) (hb : OldOK buf0) (h0 : 0 < res) (h64 : res < 64) :
     loadFile cfg now buf0 ⟨headerBytes ++ encodeRecs pre ++ x.buf.take res, dat⟩ =
         specK now (fun _ buf' => ([], Stop.err, buf')) pre (dat.map (Rd.open (bufioCap (fileBufSize cfg * 64)))) buf0 ∨
     loadFile cfg now buf0 ⟨headerBytes ++ encodeRecs pre ++ x.buf.take res, dat⟩ =
-        specK now (fun d' buf' => specK now Kend [padded x res buf'] d' buf') pre
+        specK now (fun _ buf' => ([], Stop.fileEnd, x.buf.take res ++ buf'.drop res)) pre
           (dat.map (Rd.open (bufioCap (fileBufSize cfg * 64)))) buf0 := by
   obtain ⟨r', hs', hi', hl⟩ := loadFile_records cfg now buf0 pre (x.buf.take res) dat hw hb
   rw [hl]
-  have hfu : ∃ f, 12 + 63 * pre.length + (x.buf.take res).length + 2 = f + 2 := ⟨_, rfl⟩
-  obtain ⟨f, hf⟩ := hfu
+  obtain ⟨f, hf⟩ : ∃ f, 12 + 63 * pre.length + (x.buf.take res).length + 2 = f + 1 := ⟨_, rfl⟩
   rw [hf]
-  rcases readLock_torn r' x.buf res hi' hx h0 h64 hs' with hle | ⟨r'', hs'', _, hi'', hok⟩
+  rcases readLock_torn r' x.buf res hi' hx h0 h64 hs' with hle | hok
   · left
     apply specK_congr now _ _ _ pre _ buf0 hw hb
     intro d buf hbuf
@@ -112,16 +107,37 @@ theorem loadFile_torn (cfg : Nat) (now : Int) (buf0 : Bytes) (pre : List Rec) (x
   · right
     apply specK_congr now _ _ _ pre _ buf0 hw hb
     intro d buf hbuf
-    have hend : ∀ d'' b'', loadLoop now (f + 1) r'' d'' b'' = ([], Stop.fileEnd, b'') :=
-      fun d'' b'' => loadLoop_end now f r'' d'' b'' hi'' hs''
-    show loadLoop now (f + 1 + 1) r' d buf = _
-    rw [loadLoop, hok buf hbuf]
-    simp only [hend, specK, padded, Kend]
-    by_cases hh : hasData (List.take res x.buf ++ List.drop res buf) = true
-    · simp only [hh, if_true]
-      cases d with
-      | none => rfl
-      | some dr => simp only []; cases readLockData dr <;> rfl
-    · simp only [hh, Bool.false_eq_true, if_false]
+    simp [loadLoop, hok buf hbuf]
+
+/-- Torn record with the value file cut anywhere: the delivered records are still exactly the complete records whose values
+are complete; the load either ends cleanly or (only if every value was there) with the start-up error. -/
+theorem loadFile_torn_values (cfg : Nat) (now : Int) (buf0 : Bytes) (pre : List Rec) (x : Rec) (res dc : Nat)
+    (hw : ∀ y ∈ pre, WFRec y) (hx : WFBuf x.buf) (hb : OldOK buf0) (h0 : 0 < res) (h64 : res < 64) :
+    (loadFile cfg now buf0 ⟨headerBytes ++ encodeRecs pre ++ x.buf.take res, some ((encodeData pre).take dc)⟩).1 =
+      live now (pre.take (valuePrefix pre dc)) ∧
+    ((loadFile cfg now buf0 ⟨headerBytes ++ encodeRecs pre ++ x.buf.take res, some ((encodeData pre).take dc)⟩).2.1 =
+        (if valuePrefix pre dc = pre.length then Stop.fileEnd else Stop.eof) ∨
+     (loadFile cfg now buf0 ⟨headerBytes ++ encodeRecs pre ++ x.buf.take res, some ((encodeData pre).take dc)⟩).2.1 =
+        (if valuePrefix pre dc = pre.length then Stop.err else Stop.eof)) := by
+  have hwb : ∀ y ∈ pre, WFBuf y.buf := fun y hy => (hw y hy).1
+  rcases loadFile_torn cfg now buf0 pre x res (some ((encodeData pre).take dc)) hwb hx hb h0 h64 with h | h
+  · rw [h]
+    obtain ⟨h1, h2⟩ := specK_values now (fun _ buf' => ([], Stop.err, buf')) Stop.err (fun _ _ => rfl) (fun _ _ => rfl)
+      pre (Rd.open (bufioCap (fileBufSize cfg * 64)) ((encodeData pre).take dc)) dc buf0 hw (Rd.open_inv _ _) rfl
+    exact ⟨h1, Or.inr h2⟩
+  · rw [h]
+    obtain ⟨h1, h2⟩ := specK_values now (fun _ buf' => ([], Stop.fileEnd, x.buf.take res ++ buf'.drop res)) Stop.fileEnd
+      (fun _ _ => rfl) (fun _ _ => rfl)
+      pre (Rd.open (bufioCap (fileBufSize cfg * 64)) ((encodeData pre).take dc)) dc buf0 hw (Rd.open_inv _ _) rfl
+    exact ⟨h1, Or.inl h2⟩
+
+/-- `load` (one file, fresh buffer) in terms of `loadFile`. -/
+theorem load_eq (cfg : Nat) (now : Int) (f d : Bytes) :
+    (load cfg now f d).1 = (loadFile cfg now (zeros 64) ⟨f, some d⟩).1 ∧
+    ((load cfg now f d).2 = true ↔ (loadFile cfg now (zeros 64) ⟨f, some d⟩).2.1 ≠ Stop.err) := by
+  unfold load loadFiles loadFilesFrom
+  generalize loadFile cfg now (zeros 64) ⟨f, some d⟩ = res
+  obtain ⟨rs, st, b⟩ := res
+  cases st <;> simp [loadFilesFrom]
 
 end Slock.Aof
